@@ -10,8 +10,9 @@ use num::traits::{One, Signed, Zero};
 use proptest::prelude::*;
 
 fn ma_spec_of(kind: usize, j: usize, si: usize, oi: usize, n: usize) -> Spec {
-    let sig = [0.5, 1.0, 2.0, 4.0, 6.0, 8.0, 12.0][si];
-    let off = [0.0, 0.25, 0.5, 0.85, 1.0][oi];
+    // the seven / five classic values, then a finer grid: sigma 0.5..12 in steps of 0.25, offset 0..1 in steps of 0.05
+    let sig = if si < 7 { [0.5, 1.0, 2.0, 4.0, 6.0, 8.0, 12.0][si] } else { 0.5 + 0.25 * (si - 7) as f64 };
+    let off = if oi < 5 { [0.0, 0.25, 0.5, 0.85, 1.0][oi] } else { 0.05 * (oi - 5) as f64 };
     match kind {
         0 => Spec::Sma(echo(), n),
         1 => Spec::Ema(echo(), n),
@@ -22,12 +23,12 @@ fn ma_spec_of(kind: usize, j: usize, si: usize, oi: usize, n: usize) -> Spec {
 }
 fn ma_spec() -> impl Strategy<Value = (Spec, usize)> {
     // (spec, kind) kind: 0 Sma 1 Ema 2 EmaAlpha 3 Alma 4 AlmaCustom
-    (0usize..5, 0usize..8, 0usize..7, 0usize..5).prop_map(|(kind, j, si, oi)| (kind, j, si, oi)).prop_flat_map(|(kind, j, si, oi)| (1usize..=40).prop_map(move |n| (ma_spec_of(kind, j, si, oi, n), kind)))
+    (0usize..5, 0usize..8, 0usize..54, 0usize..26).prop_map(|(kind, j, si, oi)| (kind, j, si, oi)).prop_flat_map(|(kind, j, si, oi)| (1usize..=40).prop_map(move |n| (ma_spec_of(kind, j, si, oi, n), kind)))
 }
 /// fz_single: one of the moving averages, then the clause (bounds, definition at Q / f64, gated, affine) and the stream
 pub fn fuzz_decode(u: &mut arbitrary::Unstructured) -> Option<(String, Case)> {
     let kind = u.int_in_range(0..=4usize).ok()?;
-    let spec = ma_spec_of(kind, u.int_in_range(0..=7usize).ok()?, u.int_in_range(0..=6usize).ok()?, u.int_in_range(0..=4usize).ok()?, 1 + u.int_in_range(0..=39usize).ok()?);
+    let spec = ma_spec_of(kind, u.int_in_range(0..=7usize).ok()?, u.int_in_range(0..=53usize).ok()?, u.int_in_range(0..=25usize).ok()?, 1 + u.int_in_range(0..=39usize).ok()?);
     let which = u.int_in_range(0..=4u8).ok()?;
     let (k, p, q, r) = (1 + u.int_in_range(0..=8i64).ok()?, 1 + u.int_in_range(0..=63i64).ok()?, 1 + u.int_in_range(0..=63i64).ok()?, u.int_in_range(-4096..=4096i64).ok()?);
     let xs = crate::fuzzdec::stream(u, false, 160);
@@ -499,7 +500,7 @@ fn ultra_check(case: &Case) -> Verdict {
 }
 
 pub fn clauses() -> Vec<Clause> {
-    let gen_rule = "view drawn from Sma(N), Ema(N), Ema::with_alpha(N, alpha = (N+1) j/8, j = 1..8), Alma(N), Alma::new_custom(N, sigma in {0.5,1,2,4,6,8,12}, offset in {0,.25,.5,.85,1}), N in 1..40; grammar stream of 0..4N+8 values (zeros, sign changes, ties, flats) optionally prefixed so that the EMA state is exactly 0 (first value 0; [2k, -k(N-1)]; [k,-k,0,0]).";
+    let gen_rule = "view drawn from Sma(N), Ema(N), Ema::with_alpha(N, alpha = (N+1) j/8, j = 1..8), Alma(N), Alma::new_custom(N, sigma in {0.5,1,2,4,6,8,12} or 0.5 + 0.25 i <= 12, offset in {0,.25,.5,.85,1} or 0.05 i), N in 1..40; grammar stream of 0..4N+8 values (zeros, sign changes, ties, flats) optionally prefixed so that the EMA state is exactly 0 (first value 0; [2k, -k(N-1)]; [k,-k,0,0]).";
     vec![
         Clause::generated("C04", "C04/bounds/Q", format!("{gen_rule} Oracle: every output lies in the closed span of the last N raw values (all values so far for Ema), decided exactly. Non-trivial: >= 3 outputs and an eviction."), 3000, 80_000, base_strategy(false), bounds_q).with_shard(200),
         Clause::generated("C04", "C04/bounds/f64", format!("{gen_rule} Decimal grids (inputs not representable). Oracle: span of the f64 inputs widened by 4 N eps x largest magnitude seen x (1 + t/N). Non-trivial as above."), 3000, 80_000, base_strategy(true), bounds_f64).with_shard(400),
